@@ -158,6 +158,8 @@ def compare_text(m, label, text, hit=None):
     kinds = {k: v[0] for k, v in results.items()}
     if any(v == 'ok' for v in kinds.values()):
         m.add('nontrivial')
+        if label != 'edit':
+            m.sample({'text': text[:300], 'label': label, 'outcomes': kinds}, limit=2)
     for k, v in results.items():
         if v[0].startswith('exc'):
             m.violation(f'foreign-exception/{v[1]}/{k}', text=text, label=label)
